@@ -424,9 +424,10 @@ static int do_next(cron_expr* expr, struct tm* calendar, unsigned int dot) {
     second = calendar->tm_sec;
     update_second = find_next(expr->seconds, CRON_MAX_SECONDS, second, calendar, CRON_CF_SECOND, CRON_CF_MINUTE, empty_list, &res);
     if (0 != res) goto return_result;
-    if (second == update_second) {
-        push_to_fields_arr(resets, CRON_CF_SECOND);
-    }
+    /* the second is a lower order of every later field whether or not it has just been advanced:
+       when a later field moves forward, the search must restart from the smallest allowed second */
+    (void)update_second;
+    push_to_fields_arr(resets, CRON_CF_SECOND);
 
     minute = calendar->tm_min;
     update_minute = find_next(expr->minutes, CRON_MAX_MINUTES, minute, calendar, CRON_CF_MINUTE, CRON_CF_HOUR_OF_DAY, resets, &res);
